@@ -31,6 +31,13 @@ impl AlphaServer for Impl {
     fn blk(&self, a: String, b: Option<Point>) -> RpcResult<(String, Option<Point>)> {
         Ok((a, b))
     }
+    async fn feed(&self, pending: PendingSubscriptionSink) -> SubscriptionResult {
+        self.0.lock().unwrap().push("feed".into());
+        if let Ok(sink) = pending.accept().await {
+            sink.closed().await;
+        }
+        Ok(())
+    }
     async fn sub(&self, pending: PendingSubscriptionSink, from: u64, step: Option<u64>) -> SubscriptionResult {
         self.0.lock().unwrap().push(format!("sub({from},{step:?})"));
         if let Ok(sink) = pending.accept().await {
@@ -47,6 +54,9 @@ impl BetaServer for Impl {
     }
     fn arr(&self, a: bool, b: Option<bool>) -> RpcResult<(bool, Option<bool>)> {
         Ok((a, b))
+    }
+    fn renamed(&self, id: u64, entry: Option<u32>, type_: Option<u8>) -> RpcResult<(u64, Option<u32>, Option<u8>)> {
+        Ok((id, entry, type_))
     }
     async fn watch(&self, pending: PendingSubscriptionSink, key: String) -> SubscriptionResult {
         self.0.lock().unwrap().push(format!("watch({key:?})"));
@@ -198,6 +208,23 @@ pub fn roundtrip(_a: &Value) -> Value {
             match raw(m, p.clone()).await {
                 Ok(v) if v == want => {}
                 other => why.push(format!("{m} {p}: got {:?}, expected {want}", other.map_err(|e| e.to_string()))),
+            }
+        }
+        // ---- wire names given by `rename` / identifiers that are not their own snake or camel form: the generated client sends exactly the declared name
+        expect!("renamed(9, Some(8), Some(7))", BetaClient::renamed(&c, 9, Some(8), Some(7)).await, (9u64, Some(8u32), Some(7u8)));
+        expect!("renamed(9, None, None)", BetaClient::renamed(&c, 9, None, None).await, (9u64, None::<u32>, None::<u8>));
+        match raw("renamed", json!({"ID": 5, "entry-id": 6, "type_": 7})).await {
+            Ok(v) if v == json!([5, 6, 7]) => {}
+            other => why.push(format!("renamed by its declared names: got {:?}", other.map_err(|e| e.to_string()))),
+        }
+        // ---- subscription aliases: every subscribe name starts a subscription, every unsubscribe name ends one (answers true)
+        for (subn, unsubn) in [("ns.feed", "ns.unfeed"), ("ns.feedalias", "ns.unfeedalias"), ("ns.feed", "stopfeed"), ("ns.feedalias", "ns.unfeed")] {
+            match raw(subn, json!([])).await {
+                Ok(id) if id.is_number() || id.is_string() => match raw(unsubn, json!([id])).await {
+                    Ok(v) if v == json!(true) => {}
+                    other => why.push(format!("unsubscribe name {unsubn:?} on a subscription made by {subn:?}: got {:?}, expected true", other.map_err(|e| e.to_string()))),
+                },
+                other => why.push(format!("subscribe name {subn:?}: {:?}", other.map_err(|e| e.to_string()))),
             }
         }
         // names that must not exist
